@@ -106,8 +106,18 @@ func (p *c15Party) Deliver(n *simnet.Net, m *simnet.Msg) {
 	}
 }
 
-func drawPoint(ch *core.Chooser) uint64 {
-	switch ch.Weighted("point-kind", []int{4, 2, 2, 1}) {
+func drawPoint(ch *core.Chooser, moduli []uint64) uint64 {
+	switch ch.Weighted("point-kind", []int{4, 2, 2, 1, 1, 2}) {
+	case 4:
+		return ^uint64(0) - uint64(ch.Draw("point-near-2^64", 64))
+	case 5:
+		// just above a modulus (or a small multiple of it): reduction boundary
+		q := moduli[ch.Draw("point-modulus", len(moduli))]
+		m := uint64(1 + ch.Draw("point-modulus-multiple", 3))
+		if q > (^uint64(0))/4 {
+			m = 1
+		}
+		return q*m + 1 + uint64(ch.Draw("point-modulus-offset", 16))
 	case 0:
 		return 1 + uint64(ch.Draw("point-small", 40))
 	case 1:
@@ -133,7 +143,7 @@ func (c15) Run(ctx *core.RunCtx) {
 	for len(points) < N {
 		ok := false
 		for try := 0; try < 50 && !ok; try++ {
-			x := drawPoint(ch)
+			x := drawPoint(ch, moduli)
 			ok = true
 			for _, q := range moduli {
 				if x%q == 0 {
